@@ -11,7 +11,7 @@ import shutil
 import sys
 import threading
 
-SRC = "/repo/src/conductor"
+SRC = os.environ.get("VFW_REPO", "/repo").rstrip("/") + "/src/conductor"
 
 
 class AbortInjector:
@@ -131,5 +131,5 @@ class CrashSnapshotter:
             finally:
                 sys.settrace(self._global)
             self.snapshots.append(dest)
-            self.where.append("%s:%d" % (frame.f_code.co_filename.replace("/repo/src/", "").replace(sys.prefix, "<py>"), frame.f_lineno))
+            self.where.append("%s:%d" % (frame.f_code.co_filename.replace(SRC[:-len("conductor")], "").replace(sys.prefix, "<py>"), frame.f_lineno))
         return self._local
